@@ -95,3 +95,8 @@ pub fn c18(seed: u64, budget: u64) -> i32 {
     known.len(), n_one, n_batch, n_read, n_rt, sample, fails.join(","));
   if fails.is_empty() { 0 } else { 1 }
 }
+
+
+// constructors for the real-driver probe of the event loop (harness/src/loop_probe.rs): reader / writer on given file descriptors
+pub fn probe_reader_on(fd: RawFd) -> DevInputReader { DevInputReader { fd } }
+pub fn probe_writer_on(fd: RawFd) -> DevInputWriter { DevInputWriter { fd } }
